@@ -94,6 +94,40 @@ def run_rest(model, col, tier, G, D):
 
     fn = model.cls(IR, "Function")
     bb = model.cls(IR, "BasicBlock")
+    # a value is initialised once: no method of an IR class other than __init__ runs a constructor on `self` again (that
+    # resets the reference to "unassigned" and drops the parent link of an instruction that is already in a block)
+    reinit = []
+    nir = 0
+    for ci in model.classes.values():
+        if ci.file != IR:
+            continue
+        nir += 1
+        for mname, m in ci.methods.items():
+            if mname in ("__init__", "__new__", "__setstate__", "__reduce__", "__getstate__") or not m.args.args:
+                continue
+            for c in ast.walk(m):
+                if isinstance(c, ast.Call) and last_attr(c) == "__init__" and (("super" in unparse(c.func)) or (c.args and unparse(c.args[0]) == m.args.args[0].arg)):
+                    reinit.append((ci.name, mname, c))
+    col.floor("R14.1", "IR classes searched for re-initialisation", nir, 20)
+    col.check(not reinit, "R14.1", f"{IR}:: values are initialised once", "no method besides __init__ calls a constructor on self",
+              f"{[(a, b) for a, b, _ in reinit][:3]} re-run a base constructor on an existing value: its reference falls back to the unassigned default, so several instructions of a function "
+              "share one reference (and lose their block)", IR, reinit[0][2] if reinit else fn.node)
+    # every declared parameter / member gets its slot in the IR type: the conversion enumerates them without a filter
+    clt = model.func(LOWER, "_CreateLinearIRType")
+    comps = [c for c in ast.walk(clt) if isinstance(c, (ast.ListComp, ast.DictComp, ast.GeneratorExp, ast.SetComp))
+             and any(k in unparse(c.generators[0].iter) for k in ("GetArgumentTypes", "GetSymbolNames", "GetMembers"))]
+    loops14 = [l for l in ast.walk(clt) if isinstance(l, ast.For) and any(k in unparse(l.iter) for k in ("GetArgumentTypes", "GetSymbolNames", "GetMembers"))]
+    col.floor("R14.1", "parameter / member enumerations in _CreateLinearIRType", len(comps) + len(loops14), 2)
+    for l in loops14:
+        # the same enumeration written as a loop: every iteration stores (no `if` / `continue` around the store)
+        guarded = [unparse(x.test)[:50] for s in l.body for x in ast.walk(s) if isinstance(x, ast.If)] + ["continue" for s in l.body for x in ast.walk(s) if isinstance(x, ast.Continue)]
+        col.check(not guarded, "R14.1", f"{LOWER}::_CreateLinearIRType enumerates `{' '.join(unparse(l.iter).split())[:50]}` completely", "no filter on the enumeration",
+                  f"`{guarded[0] if guarded else ''}` leaves declared parameters / members out of the IR type", LOWER, l)
+    for c in comps:
+        filt = [unparse(i) for g in c.generators for i in g.ifs]
+        col.check(not filt, "R14.1", f"{LOWER}::_CreateLinearIRType enumerates `{' '.join(unparse(c.generators[0].iter).split())[:50]}` completely", "no filter on the enumeration",
+                  f"`if {filt[0] if filt else ''}` leaves declared parameters / members out of the IR type: a call passes more operands than the callee's type has arguments, "
+                  "and later parameters are read from the wrong slot", LOWER, c)
     # ---------------- R14.2 ------------------------------------------------------
     lv = model.cls(LOWER, "LowerToIRVisitor")
     instr_classes = {c.name for c in D.ir_instruction_classes()}
